@@ -6,7 +6,8 @@ import random
 from .. import gen_sched, sched, sched_comb, sched_prog as sp
 
 PROP = "C08"
-THEOREMS = []
+THEOREMS = ["C08_gather", "C08_gather_once", "C08_chain", "C08_chain_done", "C08_chain_plain", "C08_unwrap",
+            "C08_confluence", "C08_termination", "C08_unexpected"]
 AXIOMS_OK = []
 RUN_MODULE = "Exec.RuntimeMachine Exec.RuntimeFutures Run.C08run"
 AGREE = "agree_C08"
@@ -57,8 +58,49 @@ def _corpus_programs():
     return ps
 
 
+CHUNK = 300          # completion orders per Coq case (one program/configuration may span several cases)
+_EXPLORED = {}
+
+
+def _explore(case):
+    """all runs of one program under one scheduled configuration (cached per process)"""
+    key = json.dumps([case["prog"], case["config"], case["limit"], case["samples"], case["seed"]], sort_keys=True)
+    if key not in _EXPLORED:
+        if len(_EXPLORED) > 6000:
+            _EXPLORED.clear()
+        prog, cfg = case["prog"], case["config"]
+        rng = random.Random(case["seed"])
+        if cfg == "threads":
+            runs = []
+            for _ in range(case["samples"]):
+                runs.append(sp.run_threads(prog, rng))
+                if runs[-1].get("hang"):
+                    break
+            res = {"runs": runs, "exhaustive": False}
+        else:
+            runs, exhaustive = sched.explore(lambda ch: sp.run_scheduled(prog, cfg, ch),
+                                             case["limit"], rng, case["samples"],
+                                             stop=lambda r: bool(r.get("hang")))
+            res = {"runs": runs, "exhaustive": exhaustive}
+        outcomes = {json.dumps([r.get("data"), sorted(map(json.dumps, r.get("errors", []))), "fail" in r])
+                    for r in res["runs"] if not _bad_run(r)}
+        res["order_dependent"] = len(outcomes) > 1
+        _EXPLORED[key] = res
+    return _EXPLORED[key]
+
+
 def _cases_for(prog, limit, samples, seed, configs=("bexec", "brt", "aio", "pool")):
-    return [{"prog": prog, "config": c, "limit": limit, "samples": samples, "seed": seed} for c in configs]
+    out = []
+    for c in configs:
+        case = {"prog": prog, "config": c, "limit": limit, "samples": samples, "seed": seed}
+        if c in ("aio", "pool"):
+            n = len(_explore(case)["runs"])
+            chunks = max(1, -(-n // CHUNK))
+            for k in range(chunks):
+                out.append(dict(case, chunk=[k, chunks]) if chunks > 1 else case)
+        else:
+            out.append(case)
+    return out
 
 
 def corpus():
@@ -76,7 +118,9 @@ def _comb_cases(rng, quick):
 
 
 def generate(rng, tier):
+    global SHARD
     quick = tier == "quick"
+    SHARD = 40 if quick else 10
     limit, samples = (720, 30) if quick else (5040, 200)
     cases = _comb_cases(rng, quick)
     plan = []
@@ -103,17 +147,13 @@ def run_impl(case):
     prog, cfg = case["prog"], case["config"]
     if cfg in ("bexec", "brt"):
         return {"runs": [sp.run_blocking(prog, cfg)], "exhaustive": True}
-    rng = random.Random(case["seed"])
-    if cfg == "threads":
-        runs = []
-        for _ in range(case["samples"]):
-            runs.append(sp.run_threads(prog, rng))
-            if runs[-1].get("hang"):
-                break
-        return {"runs": runs, "exhaustive": False}
-    runs, exhaustive = sched.explore(lambda ch: sp.run_scheduled(prog, cfg, ch),
-                                     case["limit"], rng, case["samples"], stop=lambda r: bool(r.get("hang")))
-    return {"runs": runs, "exhaustive": exhaustive}
+    res = _explore(case)
+    runs = res["runs"]
+    if "chunk" in case and len(runs) > CHUNK:
+        k = case["chunk"][0]
+        runs = runs[k * CHUNK:(k + 1) * CHUNK] or runs[:1]
+    return {"runs": runs, "exhaustive": res["exhaustive"], "orders_total": len(res["runs"]),
+            "order_dependent": res["order_dependent"]}
 
 
 def to_coq(case, obs):
@@ -141,7 +181,7 @@ def nontrivial(case, obs):
 def canonical(case):
     if "comb" in case:
         return json.dumps(case["comb"])
-    return (json.dumps(case["prog"], sort_keys=True), case["config"])
+    return (json.dumps(case["prog"], sort_keys=True), case["config"], tuple(case.get("chunk", ())))
 
 
 def _bad_run(r):
@@ -176,9 +216,7 @@ def direct_checks(case, obs):
         if out:
             break
     # all runs of one program/configuration must agree with each other (model-free)
-    datas = {json.dumps([r.get("data"), sorted(map(json.dumps, r.get("errors", []))), "fail" in r]) for r in obs["runs"]
-             if not _bad_run(r)}
-    if len(datas) > 1:
+    if obs.get("order_dependent"):
         out.append(("result depends on the completion order", None))
     return out
 
@@ -194,6 +232,7 @@ def shrink(case, is_bad):
             if gen_sched.n_tasks(p, "pool") < 1 and cur["config"] in ("aio", "pool", "threads"):
                 continue
             cand = dict(cur, prog=p)
+            cand.pop("chunk", None)
             if is_bad(cand):
                 cur, changed = cand, True
                 break
@@ -215,13 +254,15 @@ def _extra_evidence(cases, obss):
     for c, o in zip(cases, obss):
         per_cfg[c["config"]] = per_cfg.get(c["config"], 0) + 1
         if c["config"] in ("aio", "pool"):
-            orders += len(o["runs"])
+            if c.get("chunk", [0])[0] != 0:
+                continue
+            orders += o.get("orders_total", len(o["runs"]))
             exhaustive += 1 if o["exhaustive"] else 0
             n = gen_sched.n_tasks(c["prog"], c["config"])
             tasks[n] = tasks.get(n, 0) + 1
         fails += 1 if any("fail" in r for r in o["runs"]) else 0
         errs += 1 if any(r.get("errors") for r in o["runs"]) else 0
-    sched_cases = per_cfg.get("aio", 0) + per_cfg.get("pool", 0)
+    sched_cases = sum(1 for c in cases if c["config"] in ("aio", "pool") and c.get("chunk", [0])[0] == 0)
     return {"exhaustive": bool(sched_cases) and exhaustive == sched_cases,
             "distribution": {
                 "cases_per_configuration": per_cfg,
